@@ -163,21 +163,6 @@ theorem C05_forms_obj_unrepresentable (demangle : Name → Name) (framesPanic : 
         · rfl
     simp [toSvmaRel, svmaToRel, this]
 
-theorem fileOffsetToSvma_no_panic (ranges : List Range) (h : ∀ r ∈ ranges, r.fileOffset + r.size < U64)
-    (o : Nat) : fileOffsetToSvma ranges o ≠ .panic := by
-  induction ranges with
-  | nil => simp [fileOffsetToSvma]
-  | cons r rs ih =>
-    have hr := h r (by simp)
-    have ih' := ih (fun x hx => h x (List.mem_cons_of_mem _ hx))
-    unfold fileOffsetToSvma
-    split
-    · rw [if_neg (by omega)]
-      split
-      · split <;> simp
-      · exact ih'
-    · exact ih'
-
 /-- No lookup panics: indexing stays in range and `end - start` does not underflow for every description;
 the unchecked `file_offset + size` needs file ranges that fit `u64`; the third-party frames lookup is assumed
 not to panic. -/
